@@ -6,9 +6,11 @@ package multiplex
 // processed at a swept offset around that instant; the reader must return the data written before and then the error.
 
 import (
+	"bytes"
 	"errors"
 	"fmt"
 	"io"
+	"net"
 	"runtime"
 	"strings"
 	"sync"
@@ -150,4 +152,222 @@ func TestVerifC03WakeRace(t *testing.T) {
 	res.Count("wake-race-local", true)
 	res.Stat("trials", int64(trials))
 	res.Sample(map[string]any{"trials": trials, "stuck_readers": stuck}, 1)
+}
+
+// c03GateConn wraps a connection; while its gate is shut, Write parks (a full socket buffer: back-pressure).
+type c03GateConn struct {
+	net.Conn
+	mu   sync.Mutex
+	shut chan struct{} // non-nil and open while the gate is shut
+	in   atomic.Int32  // writers parked at the gate
+}
+
+func (g *c03GateConn) Write(b []byte) (int, error) {
+	g.mu.Lock()
+	ch := g.shut
+	g.mu.Unlock()
+	if ch != nil {
+		g.in.Add(1)
+		<-ch
+		g.in.Add(-1)
+	}
+	return g.Conn.Write(b)
+}
+func (g *c03GateConn) Shut() { g.mu.Lock(); g.shut = make(chan struct{}); g.mu.Unlock() }
+func (g *c03GateConn) Open() {
+	g.mu.Lock()
+	if g.shut != nil {
+		close(g.shut)
+		g.shut = nil
+	}
+	g.mu.Unlock()
+}
+
+// TestVerifC03Queued: two schedules around one stream that need a sender stalled in the connection.
+//
+//	(A) acknowledged write behind a close: W1 = Write(A) is stalled in the connection (it holds the stream's write
+//	    critical section), Close is called and queues up, then W2 = Write(B) is called and queues up behind it. When
+//	    the connection drains: whatever W2 returned, the peer must read A, then B if and only if W2 reported success,
+//	    then the end of the stream. A Write that reports success for bytes the peer never gets is the violation.
+//	(B) the peer's close arrives while a local Write on that stream is stalled in the connection: the local reader
+//	    parked in Read must still be released (the receiving side does not need the sender's critical section), and
+//	    frames of other streams arriving on that connection afterwards must still be delivered.
+//
+// Real goroutines, no bubble; a reader that does not return is only a verdict with a goroutine dump showing the
+// receiving goroutine waiting for a lock inside the stream's close path (otherwise "unjudged").
+func TestVerifC03Queued(t *testing.T) {
+	log.SetOutput(io.Discard)
+	log.SetLevel(log.PanicLevel)
+	res := kit.NewResult()
+	defer func() { res.Save(true) }()
+	rounds := 12
+	if kit.Thorough() {
+		rounds = 120
+	}
+	methods := []byte{EncryptionMethodPlain, EncryptionMethodAES256GCM, EncryptionMethodChaha20Poly1305, EncryptionMethodAES128GCM}
+	mkPair := func(r int) (*Session, *Session, *c03GateConn, func()) {
+		var key [32]byte
+		copy(key[:], kit.NewRng(kit.Seed()*13+int64(r)).Bytes(32))
+		mk := func() *Session {
+			o, _ := MakeObfuscator(methods[r%4], key)
+			return MakeSession(5, SessionConfig{Obfuscator: o, MsgOnWireSizeLimit: 16401, InactivityTimeout: time.Hour})
+		}
+		a, b := mk(), mk()
+		l := kit.NewVNet().NewLink(false, true) // message mode: one Write = one Read, as the record layer provides
+		g := &c03GateConn{Conn: l.End(0)}
+		a.AddConnection(g)
+		b.AddConnection(l.End(1))
+		return a, b, g, func() { g.Open(); a.Close(); b.Close(); l.Fail() }
+	}
+	waitParked := func(g *c03GateConn, n int32) bool {
+		for i := 0; i < 2000; i++ {
+			if g.in.Load() >= n {
+				return true
+			}
+			time.Sleep(time.Millisecond)
+		}
+		return false
+	}
+	for r := 0; r < rounds && res.NumViolations() < 3; r++ {
+		// ---------------------------------------------------------------- (A)
+		a, b, g, done := mkPair(r)
+		st, err := a.OpenStream()
+		if err != nil {
+			t.Fatal(err)
+		}
+		st.Write([]byte("0"))
+		conn, err := b.Accept()
+		if err != nil {
+			t.Fatal(err)
+		}
+		peer := conn.(*Stream)
+		type rd struct {
+			data []byte
+			err  error
+		}
+		got := make(chan rd, 1)
+		go func() {
+			var all []byte
+			buf := make([]byte, 65536)
+			for {
+				peer.SetReadDeadline(time.Now().Add(20 * time.Second))
+				n, err := peer.Read(buf)
+				all = append(all, buf[:n]...)
+				if err != nil {
+					got <- rd{all, err}
+					return
+				}
+			}
+		}()
+		A := bytes.Repeat([]byte{'A'}, 100+r)
+		B := bytes.Repeat([]byte{'B'}, 50+r)
+		g.Shut()
+		w1 := make(chan error, 1)
+		go func() { _, err := st.Write(A); w1 <- err }()
+		if !waitParked(g, 1) {
+			res.Stat("unjudged", 1)
+			done()
+			continue
+		}
+		cl := make(chan error, 1)
+		go func() { cl <- st.Close() }()
+		time.Sleep(15 * time.Millisecond) // Close is now waiting for the write critical section
+		w2 := make(chan error, 1)
+		go func() { _, err := st.Write(B); w2 <- err }()
+		time.Sleep(15 * time.Millisecond) // W2 is waiting behind it (or has failed at once)
+		g.Open()
+		e1, ec, e2 := <-w1, <-cl, <-w2
+		out := <-got
+		want := append([]byte("0"), A...)
+		if e2 == nil {
+			want = append(want, B...)
+		}
+		res.Count(fmt.Sprintf("A-w2ok=%v", e2 == nil), true)
+		if e1 != nil || ec != nil {
+			res.Stat("unjudged", 1)
+		} else if !bytes.Equal(out.data, want) {
+			key := "bytes-missing"
+			if len(out.data) > len(want) || !bytes.HasPrefix(want, out.data) {
+				key = "bytes-wrong"
+			}
+			res.Violate(key, fmt.Sprintf("Write(A) stalled in the connection, Close queued, Write(B) queued behind it: Write(B) returned %v, the peer read %d bytes then %v; "+
+				"what the two writes reported implies exactly %d bytes before the end of the stream", e2, len(out.data), out.err, len(want)),
+				map[string]any{"round": r, "w2_err": fmt.Sprint(e2), "peer_read": len(out.data), "want": len(want)})
+		} else if !errors.Is(out.err, ErrBrokenStream) {
+			res.Violate("eof-missing", fmt.Sprintf("after the close the peer read everything but then got %v instead of the end of the stream", out.err), nil)
+		}
+		done()
+
+		// ---------------------------------------------------------------- (B)
+		a, b, g, done = mkPair(r + 1000)
+		st, err = a.OpenStream()
+		if err != nil {
+			t.Fatal(err)
+		}
+		other, _ := a.OpenStream()
+		st.Write([]byte("0"))
+		other.Write([]byte("1"))
+		c1, _ := b.Accept()
+		c2, _ := b.Accept()
+		p1, p2 := c1.(*Stream), c2.(*Stream)
+		if p1.id != st.id {
+			p1, p2 = p2, p1
+		}
+		// a's reader on st is parked; a's writer on st is stalled in the connection
+		rdone := make(chan error, 1)
+		go func() {
+			buf := make([]byte, 100)
+			for {
+				if _, err := st.Read(buf); err != nil {
+					rdone <- err
+					return
+				}
+			}
+		}()
+		g.Shut()
+		wdone := make(chan error, 1)
+		go func() { _, err := st.Write(A); wdone <- err }()
+		if !waitParked(g, 1) {
+			res.Stat("unjudged", 1)
+			done()
+			continue
+		}
+		// the peer closes st (its closing frame travels b -> a, that direction is not gated), then sends on the other stream
+		p1.Close()
+		p2.Write([]byte("after"))
+		res.Count("B", true)
+		released := false
+		select {
+		case err := <-rdone:
+			released = true
+			if !errors.Is(err, ErrBrokenStream) {
+				res.Violate("eof-missing", fmt.Sprintf("the peer closed the stream; the parked reader got %v instead of the end of the stream", err), nil)
+			}
+		case <-time.After(5 * time.Second):
+		}
+		if !released {
+			dump := c12Dump()
+			if strings.Contains(dump, "passiveClose") && (strings.Contains(dump, "sync.(*Mutex).Lock") || strings.Contains(dump, "sync.(*RWMutex).Lock")) {
+				res.Violate("read-blocked", "the peer's closing frame arrived while a local Write on that stream was stalled in the connection: 5 s later the reader parked in Read has not been released; "+
+					"the goroutine dump shows the receiving goroutine waiting for a lock inside the stream's passive close", map[string]any{"round": r})
+			} else {
+				res.Stat("unjudged", 1)
+			}
+		} else {
+			// frames of other streams behind the closing frame on the same connection must still get through
+			ob := make(chan int, 1)
+			go func() {
+				buf := make([]byte, 100)
+				other.SetReadDeadline(time.Now().Add(5 * time.Second))
+				n, _ := other.Read(buf)
+				ob <- n
+			}()
+			if n := <-ob; n != len("after") {
+				res.Violate("bytes-missing", fmt.Sprintf("after the peer's close of one stream was processed, %d of 5 bytes sent on another stream of the same connection arrived", n), nil)
+			}
+		}
+		g.Open()
+		<-wdone
+		done()
+	}
 }
